@@ -2,6 +2,7 @@ package props
 
 import (
 	"bytes"
+	"encoding/json"
 	"fmt"
 	"strings"
 
@@ -405,7 +406,119 @@ func RunC07(r *core.Rng, run, seed uint64, tier string, cov *Cov) []*Violation {
 	cfg.MaxDumps = r.Range(1, 5)
 	cfg.Long, cfg.VeryLong = r.Chance(0.05), false
 	cfg.ExactRaceSep, cfg.NoWarnAfterSep = r.Chance(0.15), true
+	if r.Chance(0.15) {
+		return runC07Invalid(r, run, seed, cov, cfg)
+	}
 	return runLoopProp("C07", r, run, seed, tier, cov, cfg, 8)
+}
+
+// runC07Invalid: one dump of the stream is damaged so that the line at which
+// the scanner must stop is known.
+func runC07Invalid(r *core.Rng, run, seed uint64, cov *Cov, cfg gen.Cfg) []*Violation {
+	cfg.ExactRaceSep = false
+	doc := gen.Generate(r, cfg)
+	inv := gen.MalformPrecise(r, doc, 100000+r.Intn(800000))
+	if inv == nil {
+		return nil
+	}
+	cov.Probe("invalid-line:" + inv.Kind)
+	s := gen.Render(doc)
+	ih := core.Hash(s.Bytes)
+	cov.Inputs[ih]++
+	ej, _ := json.Marshal(inv)
+	var vs []*Violation
+	seen := map[string]bool{}
+	for _, sc := range loopSchedules(r, s, 4, false) {
+		c := &Case{Prop: "C07", Run: run, Seed: seed, Mode: "loop-invalid", Doc: doc, Sched: sc, NameArgs: true, Extra: ej}
+		cov.Note(ih, sc, true, "invalid")
+		for _, v := range observeInvalid(c, cov) {
+			if !seen[v.Clause] {
+				seen[v.Clause] = true
+				vs = append(vs, v)
+			}
+		}
+	}
+	return vs
+}
+
+func observeInvalid(c *Case, cov *Cov) []*Violation {
+	var inv gen.Invalid
+	if err := json.Unmarshal(c.Extra, &inv); err != nil {
+		panic(err)
+	}
+	s := c.Stream()
+	b := s.Bytes
+	var vs []*Violation
+	add := func(clause, msg string) {
+		vs = append(vs, &Violation{Prop: "C07", Clause: "C07." + clause, Msg: msg, Case: c})
+	}
+	// locate the stop line and the damaged dump (shrinking may have removed them)
+	mi := bytes.Index(b, []byte(inv.Marker))
+	if mi < 0 {
+		return nil
+	}
+	li := s.LineAt(mi)
+	if inv.After {
+		li++
+	}
+	if li >= len(s.Lines) {
+		return nil
+	}
+	bad := s.Lines[li].Start
+	dj := -1
+	for j, d := range s.Dumps {
+		if d.Start <= mi && mi < d.End {
+			dj = j
+		}
+	}
+	if dj < 0 {
+		return nil
+	}
+	clk := &core.Clock{}
+	sr := iosim.NewSimReader(b, c.Sched.FitTo(len(b)), clk)
+	w := iosim.NewSimWriter(clk)
+	var calls []CallRes
+	var rems [][]byte
+	lr := ScanLoop(sr, w, c.Opts(), len(s.Lines)+3, func(call int, res *CallRes) {
+		calls = append(calls, *res)
+		rems = append(rems, append(append([]byte(nil), res.Suffix...), sr.Unread()...))
+	})
+	if cov != nil {
+		cov.Steps += clk.Now()
+		cov.NoteReader(sr)
+	}
+	if lr.Panic != "" {
+		add("panic", lr.Panic)
+		return vs
+	}
+	if lr.Exceeded || lr.NoProg {
+		add("progress", "the resume loop does not terminate on a stream with a damaged dump")
+		return vs
+	}
+	// the (dj+1)-th snapshot belongs to the damaged dump
+	n := 0
+	for i, cr := range calls {
+		if cr.Snap == nil {
+			continue
+		}
+		if n == dj {
+			if !bytes.Equal(rems[i], b[bad:]) {
+				add("stops-at-invalid", fmt.Sprintf("%s: scanning must stop at the line %s (offset %d) and return it and everything after it unconsumed, but remainder ++ unread is %s (%d bytes, expected %d)", inv.Kind, Clip(s.Text(li), 60), bad, Clip(rems[i], 80), len(rems[i]), len(b)-bad))
+			}
+			ek := ErrKey(cr.Err)
+			isParse := strings.HasPrefix(ek, "err:")
+			if inv.WantErr && !isParse {
+				add("stops-at-invalid", fmt.Sprintf("%s: the line %s invalidates the dump but the call returned %s", inv.Kind, Clip(s.Text(li), 60), ek))
+			}
+			if !inv.WantErr && isParse {
+				add("stops-at-invalid", fmt.Sprintf("%s: the line %s merely ends the dump but the call returned %s", inv.Kind, Clip(s.Text(li), 60), ek))
+			}
+			return vs
+		}
+		n++
+	}
+	add("count", fmt.Sprintf("%s: the damaged dump (#%d) did not yield a snapshot (%d snapshots in total)", inv.Kind, dj, n))
+	return vs
 }
 
 // RunC11: producer pauses.
@@ -459,6 +572,8 @@ func dispatchLoop(prop string, c *Case, cov *Cov) []*Violation {
 	switch c.Mode {
 	case "loop", "":
 		return observeLoop(prop, c, cov)
+	case "loop-invalid":
+		return observeInvalid(c, cov)
 	}
 	if f := extraModes[prop+"/"+c.Mode]; f != nil {
 		return f(c, cov)
